@@ -110,6 +110,7 @@ def tls_conn(draw, combos=None, max_records=12, max_len=2000, delivery=None, ep=
             spec["pad13"] = draw(st.sampled_from([0, 0, 1, 7, 100]))
             spec["tickets"] = draw(st.integers(0, 2))
             spec["sh13_exts"] = draw(st.integers(0, 4))
+            spec["early_labels"] = draw(st.sampled_from([False, False, True]))
             if draw(st.integers(0, 3)) == 0:      # 0.5-RTT data
                 spec["half_rtt"] = draw(st.lists(st.tuples(st.integers(0, 300), st.integers(0, 3)).map(list), min_size=1, max_size=2))
         else:
